@@ -3,7 +3,8 @@
 stdin : {"seeds":[...], "styles": k, "files":[bundled archives], "tier": ...}  or {"replay": {...}}
 stdout: @@JSON@@ {"evaluations", "hashes", "samples", "failures":[{check, site, detail, replay}]}
 A case = (abstract design, style): render with the independent writer -> sdn.parse -> canonical structure must equal the
-structure the text describes; Inv (I1-I4) and self-containment of the result.  Bundled .edf examples: parse + Inv.
+structure the text describes; every comment kept as the tuple of its strings; Inv (I1-I4) and self-containment of the result.
+Bundled .edf examples: parse + Inv.
 """
 import sys, json, os
 import rtcommon as R
@@ -12,14 +13,95 @@ import render_edif as E
 PID = 'C05'
 
 
+def comments_of(el):
+    """(comments under EDIF.comments in order, every comment kept anywhere on the element sorted); each must be a tuple of str"""
+    direct, every, bad = [], [], []
+    for k, v in el.data.items():
+        if isinstance(k, str) and k.split('.')[-1] == 'comments':
+            for t in (v if isinstance(v, list) else [v]):
+                if not (isinstance(t, tuple) and all(isinstance(x, str) for x in t)):
+                    bad.append((k, t))
+                    continue
+                every.append(list(t))
+                if k == 'EDIF.comments':
+                    direct.append(list(t))
+    return direct, sorted(every), bad
+
+
+def check_comments(n, ad, plan, prefix=''):
+    """Every (comment "s1" ... "sk") of the text, k >= 0, is kept as the tuple of its strings: under EDIF.comments of the netlist /
+    library / cell / port / instance / one-bit net it is written directly in (in text order), and somewhere on that object (a key
+    ending in .comments) when it is written inside its status / written / keywordMap / view / interface / contents.
+    Comments of the bits of a bus and inside (design ..) are not looked at."""
+    P, fails = plan, []
+    objs = [(('netlist',), n)]
+    libs = {}
+    for l in n.libraries:
+        libs.setdefault(l.name, l)
+    for l in ad['libraries']:
+        L = libs.get(l['name'])
+        if L is None:
+            continue
+        objs.append((('lib', l['name']), L))
+        defs = {}
+        for d in L.definitions:
+            defs.setdefault(d.name, d)
+        for d in l['definitions']:
+            D = defs.get(d['name'])
+            if D is None:
+                continue
+            key = (l['name'], d['name'])
+            objs.append((('cell',) + key, D))
+            byname = {}
+            for x in D.ports:
+                byname.setdefault(('port', x.name), x)
+            for x in D.children:
+                byname.setdefault(('inst', x.name), x)
+            for x in D.cables:
+                byname.setdefault(('net', x.name), x)
+            for p in d['ports']:
+                o = byname.get(('port', P.portname[key + (p['name'],)]))
+                if o is not None:
+                    objs.append((('port',) + key + (p['name'],), o))
+            for i in d['instances']:
+                o = byname.get(('inst', i['name']))
+                if o is not None:
+                    objs.append((('inst',) + key + (i['name'],), o))
+            for c in d['cables']:
+                if c['width'] == 1 and c['base'] == 0 and key + (c['name'], 0) not in P.omit:
+                    o = byname.get(('net', c['name']))
+                    if o is not None and len(o.wires) == 1:
+                        objs.append((('net',) + key + (c['name'],), o))
+    for owner, el in objs:
+        exp = P.comments.get(owner, {'direct': [], 'nested': []})
+        direct, every, bad = comments_of(el)
+        where = '/'.join(map(str, owner))
+        if bad:
+            fails.append((PID + '.' + prefix + 'comments', owner[0] + ':not-a-tuple-of-strings', 'at %s: %r' % (where, bad[:2])))
+        if direct != exp['direct']:
+            fails.append((PID + '.' + prefix + 'comments', owner[0] + ':direct',
+                          'at %s: the text has the comments %s directly inside this %s, EDIF.comments holds %s' % (
+                              where, json.dumps(exp['direct']), owner[0], json.dumps(direct))))
+        elif every != sorted(exp['direct'] + exp['nested']):
+            fails.append((PID + '.' + prefix + 'comments', owner[0] + ':nested',
+                          'at %s: the text has the comments %s inside this %s (status / written / keywordMap / view / interface / contents included), '
+                          'the keys ending in .comments hold %s' % (where, json.dumps(sorted(exp['direct'] + exp['nested'])), owner[0], json.dumps(every))))
+    return fails
+
+
 def check_generated(run, ad, style, ext='.edf'):
     text, plan = E.render(ad, style)
     path = run.path(ext)
     with open(path, 'w') as f:
         f.write(text)
+    # features of the text with a key of their own, so that one cause does not hide behind another: a comment inside keywordMap,
+    # anything (library / comment / status) after the design construct
     n, fail = R.try_parse(path, PID)
     if fail:
+        if 'keywordmap-comment' in plan.flags:
+            fail = (fail[0], fail[1] + ':keywordMap-comment', fail[2])
         return [fail]
+    prefix = 'after-design.' if plan.after_design else ''
     fails = []
     exp = E.ad_canon(ad, plan, ordered=False)
     try:
@@ -27,7 +109,13 @@ def check_generated(run, ad, style, ext='.edf'):
     except Exception as e:
         return [(PID + '.malformed', type(e).__name__, 'the returned netlist cannot be walked: %r' % e)]
     exp.pop('name'); got.pop('name')          # the property speaks of identifier + original name of renamed *objects*; kept under 'id'
-    fails += R.failures_from_diff(PID, R.diff(exp, got), exp=exp, got=got)
+    fails += R.failures_from_diff(PID, R.diff(exp, got), prefix=prefix, exp=exp, got=got)
+    if prefix and fails:
+        fails = [(a, b, c + '  [the text has after its (design ..): %s]' % ', '.join(plan.after_design[:4])) for a, b, c in fails]
+    try:
+        fails += check_comments(n, ad, plan, prefix)
+    except Exception as e:
+        fails.append((PID + '.malformed', type(e).__name__, 'the data of the returned netlist cannot be walked: %r' % e))
     fails += R.wellformed(n, PID)
     return fails
 
